@@ -252,3 +252,72 @@ EMPTY_STEP_IN_THREAD = dict(_case(
 THREAD_ENDS_WITH_PANIC = _case(
     _p([_s("s0", [_t("t0", [], [_LOG, {"a": "thread", "script": [_LOG, _PANIC]}, _LOG]), _t("t1", [], [_LOG], rank=2)])]),
     _cfg(1))
+
+
+# ---- round 4 -------------------------------------------------------------------------------------------------------
+# a TEST and a SUB-SUITE of one suite with the same name (the loader checks the two kinds of names separately): their
+# locations differ by the node KIND only.  The test fails — after the sub-suite's setup, tests and teardown have run (it is
+# held at a gate while the other worker goes through the sub-suite) in the first case, before them (1 worker) in the second:
+# the sub-suite's phases and tests pass either way.  In the third case the sub-suite's setup fails while the test is held
+# between two hooks: the test's body runs and the test passes, the sub-suite's own test is skipped.
+HOMONYMOUS_TEST_AND_SUBSUITE = _case(
+    _p([_s("a", [_t("login", [], [_GATE, _ERR])],
+           suites=[_s("login", [_t("t", [], [_LOG])], setup_suite={"params": [], "script": [_LOG, _LOG]}, teardown_suite=[_LOG])])]),
+    _cfg(2, "fifo"))
+HOMONYMOUS_TEST_AND_SUBSUITE_SEQ = dict(HOMONYMOUS_TEST_AND_SUBSUITE, strategy="off",
+                                        project=dict(HOMONYMOUS_TEST_AND_SUBSUITE["project"], nb_threads=1))
+HOMONYMOUS_SUBSUITE_SETUP_FAILS = _case(
+    _p([_s("a", [_t("login", [], [_LOG])], setup_test=[_GATE],
+           suites=[_s("login", [_t("t", [], [_LOG])], setup_suite={"params": [], "script": [_ERR]}, teardown_suite=[_LOG])])]),
+    _cfg(2, "fifo"))
+CONTROLS4 = [HOMONYMOUS_TEST_AND_SUBSUITE, HOMONYMOUS_TEST_AND_SUBSUITE_SEQ, HOMONYMOUS_SUBSUITE_SETUP_FAILS]
+
+# a reporting backend handler that ends with an exception class the iteration / generator / interpreter protocols treat
+# specially: a bare `next(it)` on an exhausted iterator (StopIteration), its async twin, a generator closed under the
+# handler (GeneratorExit), `sys.exit()`, a KeyboardInterrupt raised on the event-handling thread.  The first two are
+# ordinary Exceptions for `_handler_loop`; the last three are not caught by its `except Exception` (finding D42).
+PROTOCOL_FAULTS = [dict(EMPTY_BACKEND_ERROR, fault={"k": 3, "cls": c, "text": "backend boom"})
+                   for c in ("StopIteration", "StopAsyncIteration", "GeneratorExit", "SystemExit", "KeyboardInterrupt")]
+
+# several `pre_run` fixtures depending on one another, a LATER one failing in its setup: `db` (generator) <- `schema`
+# (generator) <- `data` (setup raises).  The session is not run; `schema` then `db` — already set up — are torn down once.
+_RAISE_EXC = {"a": "raise", "kind": "exc"}
+PRE_RUN_CHAIN_LATER_SETUP_FAILS = _case(
+    _p([_s("s0", [_t("t0", ["f2"], [_LOG]), _t("t1", [], [_LOG], rank=2)])],
+       [_f("f0", "pre_run", [], teardown=[]), _f("f1", "pre_run", [], teardown=[], params=["f0"]),
+        _f("f2", "pre_run", [_RAISE_EXC], teardown=[], params=["f1"])]),
+    _cfg(1))
+# ... the same with two independent fixtures used by different tests, and an earlier teardown that raises as well
+PRE_RUN_SECOND_SETUP_FAILS = _case(
+    _p([_s("s0", [_t("t0", ["f0"], [_LOG]), _t("t1", ["f1"], [_LOG], rank=2)])],
+       [_f("f0", "pre_run", [], teardown=[_RAISE_EXC]), _f("f1", "pre_run", [_RAISE_EXC])]),
+    _cfg(2))
+PRE_RUN_CONTROLS = [PRE_RUN_CHAIN_LATER_SETUP_FAILS, PRE_RUN_SECOND_SETUP_FAILS]
+
+# reporting sessions of ONE class whose on_<event> handlers are set per instance: the one that only listens to the starts is
+# registered before the complete one (and, in the second run of the process, before the one listening to starts and ends)
+LISTENERS_PARTIAL_FIRST = dict(_case(
+    _p([_s("s0", [_t("t0", [], [_LOG, {"a": "step", "d": "second"}, _LOG]), _t("t1", [], [_ERR], rank=2)],
+           setup_suite={"params": [], "script": [_LOG]})]), _cfg(1)), listeners=["starts", "all"])
+LISTENERS_PARTIAL_FIRST_2 = dict(LISTENERS_PARTIAL_FIRST, listeners=["records", "starts+ends", "all"],
+                                 project=dict(LISTENERS_PARTIAL_FIRST["project"], nb_threads=2))
+LISTENER_CONTROLS = [LISTENERS_PARTIAL_FIRST, LISTENERS_PARTIAL_FIRST_2]
+
+# the SAVED report: suite b = [x1 depends on a.s, x2 depends on a.f (x2 fails)]; with 2 workers a.s is held until b.x2 has
+# ended, so x2 starts, fails — the report is saved (at_each_failed_test / at_each_test) — before x1 starts.  The file saved
+# at the end must list x1 before x2, as the file of the 1-thread run does.
+SAVED_ORDER = dict(_case(
+    _p([_s("a", [_t("s", [], [_GATE, _LOG]), _t("f", [], [_LOG], rank=2)]),
+        _s("b", [_t("x1", [], [_LOG], deps=[["a", "s"]]), _t("x2", [], [_ERR], deps=[["a", "f"]], rank=2)], rank=2)]),
+    _cfg(2, "fifo")), files={"backends": ["json"], "saving": "at_each_test"})
+
+# the real json + junit backends saving the report at each test (the junit backend walks the whole report at every save):
+# the failure comes AFTER the first save, in the same top-level suite; no session teardown.  The run's verdict (return
+# value, report success flag) must see it.
+LATE_FAILURE_WITH_FILE_BACKENDS = dict(_case(
+    _p([_s("s0", [_t("t0", [], [_LOG]), _t("t1", [], [_LOG], rank=2), _t("t2", [], [_ERR], rank=3)])]), _cfg(1)),
+    files={"backends": ["json", "junit"], "saving": "at_each_test"})
+LATE_TEARDOWN_FAILURE_WITH_FILE_BACKENDS = dict(_case(
+    _p([_s("s0", [_t("t0", [], [_LOG]), _t("t1", [], [_LOG], rank=2)], teardown_suite=[_ERR])]), _cfg(2)),
+    files={"backends": ["json", "junit"], "saving": "at_each_log"})
+FILE_BACKEND_CONTROLS = [LATE_FAILURE_WITH_FILE_BACKENDS, LATE_TEARDOWN_FAILURE_WITH_FILE_BACKENDS]
